@@ -120,18 +120,21 @@ pub fn run(out: &mut Out, thorough: bool, seed: u64, extra: &[String]) {
         }
     }
     // ---- RNSTool: NTT-friendly prime chains of 1..6 primes, mixed sizes and orders
-    for _ in 0..reps {
+    for ti in 0..reps + 6 {
         let lg = r.range(1, if thorough { 7 } else { 5 }) as usize; let n = 1usize << lg;
-        let k = r.range(1, 6) as usize;
+        // the first six tools are directed at the sizing rule of the auxiliary base B (|B| = |q| + 1 when 32 + bits(t) + bits(Q) >= 61(|q| + 1)):
+        // 60-bit coefficient primes with a wide plain modulus, on both sides of the boundary
+        let directed = ti < 6;
+        let k = if directed { 1 + ti as usize % 3 } else { r.range(1, 6) as usize };
         let minb = lg + 2;
-        let mut bits: Vec<usize> = (0..k).map(|_| *r.pick(&[minb.max(8), 20, 30, 40, 50, 59, 60])).map(|b| b.max(minb)).collect();
+        let mut bits: Vec<usize> = if directed { vec![60; k] } else { (0..k).map(|_| *r.pick(&[minb.max(8), 20, 30, 40, 50, 59, 60])).map(|b| b.max(minb)).collect() };
         match r.below(3) { 0 => bits.sort(), 1 => { bits.sort(); bits.reverse(); } _ => {} }
         let qs = ntt_primes(&mut r, n, &bits);
         if qs.len() != k { continue; }
-        let t = match r.below(4) { 0 => 1u64 << r.range(1, 20), 1 => { let tb = (lg + 3).max(r.range(4, 40) as usize); hu::get_primes(2 * n as u64, tb, 1)[0].value() } 2 => 3, _ => r.range(2, 1 << 20) | 1 };
+        let t = if directed { let tb = if ti < 3 { 28 + k } else { *r.pick(&[31usize, 40, 50, 59]) + k.min(1) - 1 }; hu::get_primes(2 * n as u64, tb.min(60), 1)[0].value() } else { match r.below(4) { 0 => 1u64 << r.range(1, 20), 1 => { let tb = (lg + 3).max(r.range(4, 40) as usize); hu::get_primes(2 * n as u64, tb, 1)[0].value() } 2 => 3, _ => r.range(2, 1 << 20) | 1 } };
         // every third chain ends in a prime that is 1 modulo t (t >= 3): q_last^-1 mod t = 1, the guarded fast paths of the BGV division are taken
         let mut qs = qs;
-        if t >= 3 && r.chance(1, 3) { if let Some(p) = crate::ctx::prime_one_mod(n, t, 50, &qs) { let k1 = qs.len() - 1; qs[k1] = p; } }
+        if !directed && t >= 3 && r.chance(1, 3) { if let Some(p) = crate::ctx::prime_one_mod(n, t, 50, &qs) { let k1 = qs.len() - 1; qs[k1] = p; } }
         if qs.iter().any(|&q| gcd(q, t) != 1) { continue; }
         let ms: Vec<Modulus> = qs.iter().map(|&q| Modulus::new(q)).collect();
         let base = hu::RNSBase::new(&ms).unwrap();
